@@ -74,7 +74,17 @@ XalanOutputStreamPrintWriter::create(
 
 XalanOutputStreamPrintWriter::~XalanOutputStreamPrintWriter()
 {
-    flush();
+    // A destructor cannot report that the stream refuses the data: when a
+    // transformation has failed, the writer goes away while the stack is
+    // being unwound, and an exception from here would end the process.
+    // Whoever needs to know calls flush(), as the end of a document does.
+    try
+    {
+        flush();
+    }
+    catch(...)
+    {
+    }
 }
 
 
